@@ -7,6 +7,7 @@
   `localize` is the local time zone as an arbitrary function from wall seconds to instants.
 -/
 import ICal.Lemmas.Alarm
+import ICal.Lemmas.BodiesAlarm
 namespace ICal.C15
 open ICal.Alarms
 
@@ -333,5 +334,37 @@ example : (active (fun w => w - 3600)
       [{ trigger := some (.rel (-86400)) }, { trigger := some (.rel 0) }] true)).map (·.map AlarmTime.key)
     = .ok [({ trigger := some (.rel 0) }, .aware 428400)] := by decide
 example : ackLe (some 3) (some 3) ∧ ackLe none (some 0) := by simp [ackLe]
+
+/-! ## Regenerated function bodies = hand model
+
+  `ICal.Gen.BodiesAlarm.AlarmTime_*` are written by tools/py2lean.py from the current source text of
+  `AlarmTime.acknowledged`, `.trigger` and `.is_active` on every run.  The translated code works on
+  date/datetime OBJECTS (the hand model's `Trig`): `>`, `max`, `.tzinfo is None` are Python's partial
+  operations (ICal/Model/PyRTAlarm.lean), a test for None is a `match`, `raise LocalTimezoneMissing`
+  is an exception value.  Parameters: `self._last_ack`, `self._snooze_until`, `self._trigger`,
+  `self.alarm.ACKNOWLEDGED` (cal.Alarm, external) and the function `tools.to_datetime`.  The theorems
+  prove them equal to the model's `acknowledged`, `trigger`, `isActive` (every theorem above is about
+  these), with the optional UTC instants of the model given as aware datetimes (`Bodies.awareO`) and
+  the model's errors as the Python exception classes (`Bodies.liftA`). -/
+
+theorem body_alarmtime_acknowledged (a : AlarmTime) :
+    Gen.BodiesAlarm.AlarmTime_acknowledged (Bodies.awareO a.alarm.acknowledged) (Bodies.awareO a.lastAck) =
+      .ok (Bodies.awareO a.acknowledged) :=
+  Bodies.AlarmTime_acknowledged_eq a
+
+theorem body_alarmtime_trigger (a : AlarmTime) :
+    Gen.BodiesAlarm.AlarmTime_trigger (Bodies.awareO a.snooze) a.trig toDatetime = Bodies.liftA a.trigger :=
+  Bodies.AlarmTime_trigger_eq a
+
+theorem body_alarmtime_is_active (a : AlarmTime) :
+    Gen.BodiesAlarm.AlarmTime_is_active (Bodies.awareO a.alarm.acknowledged) (Bodies.awareO a.lastAck)
+        (Bodies.awareO a.snooze) a.trig toDatetime = Bodies.liftA a.isActive :=
+  Bodies.AlarmTime_is_active_eq a
+
+/-- `Alarms.active`: the comprehension `[t for t in self.times if t.is_active()]` (its list and the
+    method are parameters) is the model's `filterE` -/
+theorem body_alarms_active (ts : List AlarmTime) :
+    Gen.BodiesAlarm.Alarms_active ts (fun x => Bodies.liftA x.isActive) = Bodies.liftA (filterE AlarmTime.isActive ts) :=
+  Bodies.Alarms_active_eq ts
 
 end ICal.C15
